@@ -466,6 +466,7 @@ func checkC20(p *Prog, res *Result, tier string) {
 	res.rule("C20-R2", "explicit aborts reachable in non-test repository code are exactly the accepted set", 3)
 	res.rule("C20-R3", "no request can leak an allocated revision (C04-R1..R3)", 10)
 	res.rule("C20-R7", "no request can wedge the node by making a goroutine wait for a lock it holds itself (C19-R5)", 1)
+	res.rule("C20-R8", "every position used with the backing array of a ring buffer (element index, slice bound) is the result of the ring's wrap function (x % capacity): a watch request cannot make the event cache index out of range", 8)
 	res.rule("C20-R6", "label values reach the prometheus client only through a UTF-8 sanitiser: request bytes used as a label value (a watched prefix) cannot make With() panic", 1)
 	res.rule("C20-R5", "no allocation is sized by an integer taken from a request (limit, revision, lease ...) without an upper bound: make() with such a size can exceed memory or panic outright", 3)
 	res.rule("C20-R4", "constant-index accesses to request-derived slices in the etcd request layer are dominated by a matching length test", 5)
@@ -656,6 +657,7 @@ func checkC20(p *Prog, res *Result, tier string) {
 	checkGuardedIndexing(p, res)
 	checkRequestSizedAllocations(p, res)
 	checkLabelValueSanitised(p, res)
+	checkRingIndexing(p, res)
 	// R7: self-deadlock (C19-R5)
 	checkSelfDeadlock(p, p.lockContext(), res, "C20-R7")
 
@@ -1305,5 +1307,168 @@ func checkLabelValueSanitised(p *Prog, res *Result) {
 	}
 	if n == 0 {
 		res.und("C20-R6", "prometheus wrapper", "-", "no With() call found")
+	}
+}
+
+// ---------- R8: ring buffers are indexed through their wrap function ----------
+
+// checkRingIndexing: a ring type is a struct with a slice field and a method that returns its argument modulo an
+// integer field of the receiver (the wrap function). Every index into, and every explicit bound of a slice expression
+// over, the slice field must be a result of the wrap function (or that modulo written out, or the constant 0):
+// positions computed any other way (wrap(a)+b) leave the array once the ring has wrapped.
+func checkRingIndexing(p *Prog, res *Result) {
+	type ring struct {
+		wrap *ssa.Function
+		capF *types.Var
+	}
+	rings := map[*types.Named]ring{}
+	modOfField := func(v ssa.Value, recv *ssa.Parameter) *types.Var {
+		v = resolve(v)
+		for {
+			if cv, ok := v.(*ssa.Convert); ok {
+				v = resolve(cv.X)
+				continue
+			}
+			break
+		}
+		bo, ok := v.(*ssa.BinOp)
+		if !ok || bo.Op != token.REM {
+			return nil
+		}
+		y := resolve(bo.Y)
+		for {
+			if cv, ok := y.(*ssa.Convert); ok {
+				y = resolve(cv.X)
+				continue
+			}
+			break
+		}
+		ld, ok := y.(*ssa.UnOp)
+		if !ok || ld.Op != token.MUL {
+			return nil
+		}
+		fa, ok := ld.X.(*ssa.FieldAddr)
+		if !ok || (recv != nil && resolve(fa.X) != ssa.Value(recv)) {
+			return nil
+		}
+		return fieldOf(fa)
+	}
+	for _, f := range p.AllFuncs {
+		if f.Synthetic != "" || f.Pkg == nil || !strings.HasPrefix(f.Pkg.Pkg.Path(), modPath) || f.Signature.Recv() == nil || len(f.Params) != 2 || len(f.Blocks) != 1 {
+			continue
+		}
+		ret, ok := f.Blocks[0].Instrs[len(f.Blocks[0].Instrs)-1].(*ssa.Return)
+		if !ok || len(ret.Results) != 1 {
+			continue
+		}
+		capF := modOfField(ret.Results[0], f.Params[0])
+		if capF == nil {
+			continue
+		}
+		pt, ok := f.Signature.Recv().Type().(*types.Pointer)
+		if !ok {
+			continue
+		}
+		if n, ok := pt.Elem().(*types.Named); ok {
+			rings[n] = ring{f, capF}
+		}
+	}
+	if len(rings) == 0 {
+		res.und("C20-R8", "ring buffers", "-", "no ring type (slice field + wrap method) found")
+		return
+	}
+	var okPosD func(v ssa.Value, rg ring, d int) bool
+	okPosD = func(v ssa.Value, rg ring, d int) bool {
+		v = resolve(v)
+		if k, ok := constInt(v); ok && k == 0 {
+			return true
+		}
+		if c, ok := v.(*ssa.Call); ok && c.Common().StaticCallee() == rg.wrap {
+			return true
+		}
+		switch x := v.(type) {
+		case *ssa.Parameter:
+			// a helper that is handed positions: as good as what every caller hands it
+			acts := p.paramActuals(x)
+			if d > 3 || len(acts) == 0 || p.addressTaken(x.Parent()) {
+				return false
+			}
+			for _, a := range acts {
+				if !okPosD(a, rg, d+1) {
+					return false
+				}
+			}
+			return true
+		case *ssa.Phi:
+			if d > 3 {
+				return false
+			}
+			for _, e := range x.Edges {
+				if !okPosD(e, rg, d+1) {
+					return false
+				}
+			}
+			return true
+		}
+		return modOfField(v, nil) == rg.capF
+	}
+	okPos := func(v ssa.Value, rg ring) bool { return okPosD(v, rg, 0) }
+	cnt := map[*ssa.Function]int{}
+	for _, f := range p.AllFuncs {
+		if f.Synthetic != "" {
+			continue
+		}
+		for _, b := range f.Blocks {
+			for _, ins := range b.Instrs {
+				var base ssa.Value
+				var positions []ssa.Value
+				switch x := ins.(type) {
+				case *ssa.IndexAddr:
+					base, positions = x.X, []ssa.Value{x.Index}
+				case *ssa.Slice:
+					base = x.X
+					for _, q := range []ssa.Value{x.Low, x.High} {
+						if q != nil {
+							positions = append(positions, q)
+						}
+					}
+				default:
+					continue
+				}
+				ld, ok := resolve(base).(*ssa.UnOp)
+				if !ok || ld.Op != token.MUL {
+					continue
+				}
+				fa, ok := ld.X.(*ssa.FieldAddr)
+				if !ok {
+					continue
+				}
+				pt, ok := fa.X.Type().Underlying().(*types.Pointer)
+				if !ok {
+					continue
+				}
+				n, ok := pt.Elem().(*types.Named)
+				rg, isRing := rings[n]
+				if !ok || !isRing {
+					continue
+				}
+				if _, isSlice := fieldOf(fa).Type().Underlying().(*types.Slice); !isSlice {
+					continue
+				}
+				top := f
+				for top.Parent() != nil {
+					top = top.Parent()
+				}
+				for _, q := range positions {
+					cnt[top]++
+					construct := fmt.Sprintf("%s: position #%d into %s.%s", funcName(top), cnt[top], n.Obj().Name(), fieldOf(fa).Name())
+					if okPos(q, rg) {
+						res.ok("C20-R8", construct, p.pos(ins.Pos()), "result of "+funcName(rg.wrap))
+					} else {
+						res.bad("C20-R8", construct, p.pos(ins.Pos()), "a position into the ring's backing array is not reduced by the wrap function ("+rg.wrap.Name()+"): once the ring has wrapped it can lie beyond the array, and a watch request reaching this code panics (slice bounds / index out of range)")
+					}
+				}
+			}
+		}
 	}
 }
